@@ -65,17 +65,23 @@ theorem decoder_statements :
 
 /-- the facts of `(*reader).run` / `initialize` the loop LTS (Model/ReaderLoopLTS.lean) transcribes: the sentinel values,
 the resolution switch and the seek to the resolved offset, `attempt = 0; offset = start` after a successful initialize,
-`errcount++` at the end of an iteration, and the action of every simple error class of readLoop's switch
-(continue with errcount 0 / close and leave the loop / close and return / sendError and leave the loop) -/
+`errcount++` at the end of an iteration, the action of every simple error class of readLoop's switch
+(continue with errcount 0 / close and leave the loop / close and return / sendError and leave the loop), and what `run`
+does with the connection itself (`runConnDirect`): it only closes it and moves its offset without asking the broker
+(`Seek` with SeekDontCheck) — every step that waits for the broker goes through `r.initialize` / `r.read` /
+`r.readOffsets`, which arm a deadline first: each `Env` event of Model/ReaderWorld.lean stands for a call that returns
+(seeded/C09-m8 calls `conn.ReadOffsets()` directly in the OffsetOutOfRange branch: no deadline, the loop can block
+for ever in one event) -/
 theorem reader_loop_facts :
     Gen.decoderFacts.firstOffsetConst = -2 ∧ Gen.decoderFacts.lastOffsetConst = -1 ∧
     (∀ first last : Int, resolve Gen.decoderFacts.firstOffsetConst first last = first ∧
                          resolve Gen.decoderFacts.lastOffsetConst first last = last) ∧
     Gen.decoderFacts.initResolve = "switch { case $1 == FirstOffset: $1 = $2 case $1 == LastOffset: $1 = $3 case $1 < $2: $1 = $2 }" ∧
     Gen.decoderFacts.initSeeksResolved = true ∧ Gen.decoderFacts.runResetsAttempt = true ∧
+    Gen.decoderFacts.runConnDirect = "Close,Seek+DontCheck" ∧
     Gen.decoderFacts.runErrcountInc = true ∧
     Gen.decoderFacts.loopBranches = "$1 == nil -> errcount=0,continue | errors.Is($1, NotLeaderForPartition) -> close,break-loop | errors.Is($1, OffsetOutOfRange) ->  | errors.Is($1, RequestTimedOut) -> errcount=0,continue | errors.Is($1, UnknownTopicOrPartition) -> close,break-loop | errors.Is($1, context.Canceled) -> close,return | errors.Is($1, errUnknownCodec) -> sendError,break-loop | errors.Is($1, io.EOF) -> errcount=0,continue | errors.Is($1, io.ErrNoProgress) -> close,break-loop | default -> " := by
-  refine ⟨by decide, by decide, ?_, rfl, rfl, rfl, rfl, rfl⟩
+  refine ⟨by decide, by decide, ?_, rfl, rfl, rfl, rfl, rfl, rfl⟩
   intro first last
   constructor <;> simp [resolve, Gen.decoderFacts]
 
